@@ -36,8 +36,9 @@ fn observe(p: &Package, cx: &Ctx) -> Value {
         }
         let signed_by = match p.signature_key_ids() {
             Ok(ids) if ids.len() == 1 => cx.ids.get(&ids[0]).cloned().unwrap_or_else(|| format!("other:{}", ids[0])),
+            Ok(ids) if ids.is_empty() => "none-reported".to_string(),
             Ok(ids) => format!("count:{}", ids.len()),
-            Err(_) => "err".to_string(),
+            Err(_) => "none-reported".to_string(),
         };
         let mut bytes = vec![];
         let wrote = p.write(&mut bytes).is_ok();
